@@ -949,9 +949,30 @@ def rule_limit_installed(ctx, px):
                 for i_, a_ in enumerate(c.args[:-1]):
                     if isinstance(a_, (ast.Name, ast.Attribute)) and ast.unparse(a_).split(".")[-1] == "LimitEmptyLines" and not isinstance(c.args[i_ + 1], ast.Starred):
                         n_arg = c.args[i_ + 1]
-            if n_arg is None:
-                continue
+            if n_arg is None or isinstance(n_arg, ast.Lambda):
+                continue          # (a factory `lambda: LimitEmptyLines(n)`: the constructor call inside is a site of its own)
             k += 1
+            # ... with the number that was given: `n or 1`, `max(n, 1)`, `n if n else d` turn a limit of 0 into another one
+            nv = pyfront.subst_locals(f.node, n_arg)
+            while isinstance(nv, ast.Call) and isinstance(nv.func, ast.Name) and nv.func.id == "int" and len(nv.args) == 1 and not nv.keywords:
+                nv = nv.args[0]
+            plain = isinstance(nv, (ast.Name, ast.Attribute, ast.Subscript)) or (isinstance(nv, ast.Call) and isinstance(nv.func, ast.Attribute)
+                                                                                 and nv.func.attr in ("get_config_value", "get_option", "get", "get_config_value_as_int")) \
+                or (isinstance(nv, ast.Call) and isinstance(nv.func, ast.Name) and nv.func.id == "getattr")
+            # a parameter of a private helper: what the helper's callers pass for it
+            fparams = [a_.arg for a_ in f.node.args.args]
+            if plain and isinstance(nv, ast.Name) and nv.id in fparams and f.name.startswith("_"):
+                pos = fparams.index(nv.id) - (1 if f.cls is not None and fparams and fparams[0] in ("self", "cls") else 0)
+                for g2 in px.all_funcs:
+                    for c2 in ast.walk(g2.node):
+                        if isinstance(c2, ast.Call) and isinstance(c2.func, ast.Attribute) and c2.func.attr == f.name and 0 <= pos < len(c2.args):
+                            av = pyfront.subst_locals(g2.node, c2.args[pos])
+                            while isinstance(av, ast.Call) and isinstance(av.func, ast.Name) and av.func.id == "int" and len(av.args) == 1:
+                                av = av.args[0]
+                            if isinstance(av, (ast.BoolOp, ast.IfExp, ast.BinOp)) or (isinstance(av, ast.Call) and isinstance(av.func, ast.Name) and av.func.id in ("max", "min", "abs")):
+                                plain, nv = False, av
+            ctx.ob(R, f.module.rel, f"{f.short} :: LimitEmptyLines is given the configured number itself (`{ast.unparse(n_arg)[:40]}`)", plain,
+                   "" if plain else f"`{ast.unparse(nv)[:60]}` is computed from the number: a limit of 0 (or another value) becomes a different limit", c.lineno)
 
             class _GA(ast.NodeTransformer):      # getattr(x, "name"[, None]) reads the same thing as x.name
                 def visit_Call(self, node):
